@@ -191,6 +191,25 @@ def run(ctx):
                          'rerun schedules actions without re-checking the '
                          'state after the before-start policies',
                          ctx.loc(g, c))
+                # ... and that re-check lets only RUNNING through (a task a
+                # policy has just DELAYED or put back to IDLE must not start)
+                IN2, k2 = sd.analyze(
+                    cfg, g, [('self.task_ex.state', sd.state_domain),
+                             ('self.rerun', (False, True))],
+                    kill=lambda c: ('self.task_ex.state',)
+                    if U.call_name(c) == '_before_task_start' else ())
+                hooked = {v[0] for v in IN2[n.id] if v[1] is True}
+                r3.check(hooked <= {S['RUNNING']},
+                         ctx.construct(g, extra='only RUNNING after hooks'),
+                         'a rerun schedules actions although a before-start '
+                         'policy moved the task to %s'
+                         % sorted(map(str, hooked - {S['RUNNING']})),
+                         ctx.loc(g, c))
+                hk = {v[1] for v in IN2[hookn.id]}
+                r3.check(hk == {True}, ctx.construct(g, extra='hooks on '
+                                                     'rerun'),
+                         'before-start policies are not applied exactly on '
+                         'rerun', ctx.loc(g))
     pb = prog.func(POL + '.PauseBeforePolicy.before_task_start')
     cfg = ctx.cfg(pb)
     a = U.calls_in(cfg, 'set_state')
